@@ -97,13 +97,23 @@ class DictInterp:
     def bind(self, target, v, env):
         if isinstance(target, ast.Name):
             env[target.id] = v
-        elif isinstance(target, ast.Tuple) and isinstance(v, tuple) and len(v) == len(target.elts):
+        elif isinstance(target, (ast.Tuple, ast.List)) and isinstance(v, tuple) and len(v) == len(target.elts):
             for t, x in zip(target.elts, v):
                 self.bind(t, x, env)
         else:
             raise _Unknown("loop target %s" % src(target))
 
     def iterate(self, it, env):
+        if isinstance(it, ast.Call) and call_name(it) == "product" and it.args:
+            # itertools.product(X, Y, ...): the nested loops it abbreviates
+            import itertools as _it
+            seqs = [self.iterate(a, env) for a in it.args]
+            rep = [k for k in it.keywords if k.arg == "repeat"]
+            if rep and isinstance(rep[0].value, ast.Constant) and isinstance(rep[0].value.value, int):
+                seqs = seqs * rep[0].value.value
+            return [tuple(c) for c in _it.product(*seqs)]
+        if isinstance(it, ast.Call) and call_name(it) in ("list", "tuple", "iter") and isinstance(it.func, ast.Name) and len(it.args) == 1:
+            return self.iterate(it.args[0], env)
         if isinstance(it, ast.Call) and isinstance(it.func, ast.Attribute) and it.func.attr in ("keys", "items", "values"):
             d = self.ev(it.func.value, env)
             if not isinstance(d, dict):
